@@ -29,15 +29,18 @@ Record queue := mkQueue {
   q_cmds : list cmd;       (* CommandQueue.commands *)
   q_running : bool;        (* CommandQueue.IsRunning *)
   q_lst : list nat;        (* CommandQueue.listeners (owner thread ids) *)
+  q_ctx : nat;             (* the Context that owns the queue (never changes) *)
+  q_req : N;               (* ID of the request in flight for the head command (meaningful while IsRunning) *)
   (* ghost histories, never read by the transition function *)
   q_enq : list N;          (* ids appended by Enqueue, in order *)
   q_start : list N;        (* ids whose processing started, in order *)
   q_done : list N          (* ids removed by Dequeue, in order *)
 }.
 #[export] Instance eta_queue : Settable _ :=
-  settable! mkQueue <q_cmds; q_running; q_lst; q_enq; q_start; q_done>.
+  settable! mkQueue <q_cmds; q_running; q_lst; q_ctx; q_req; q_enq; q_start; q_done>.
 
-Definition empty_queue : queue := mkQueue [] false [] [] [] [].
+Definition empty_queue_in (ctx : nat) : queue := mkQueue [] false [] ctx 0 [] [] [].
+Definition empty_queue : queue := empty_queue_in 0.
 
 (** Program counters of an application thread = the yield points of
     CommandQueue.Enqueue and Driver.DrainCommandQueue. *)
@@ -102,3 +105,11 @@ Definition kind_eqb (a b : kind) : bool :=
   match a, b with Noop, Noop | Async, Async => true | _, _ => false end.
 
 Definition nonempty {A} (l : list A) : bool := match l with [] => false | _ :: _ => true end.
+
+(** Driver.findCommandByReqID: the first queue, context by context and queue by
+    queue (= list order), whose head command has the request [rid] in flight. *)
+Fixpoint find_req (l : list queue) (rid : N) (i : nat) : option nat :=
+  match l with
+  | [] => None
+  | qq :: r => if q_running qq && N.eqb (q_req qq) rid then Some i else find_req r rid (S i)
+  end.
